@@ -235,9 +235,14 @@ def flatten(items):
         elif t == "CB":
             key = (it["cond"]["key"],)
             guard = {"ckey": key, "bound": key in measured, "cond": it["cond"]}
-            for s in _flatten_block(it["blk"], measured):
+            inner = _flatten_block(it["blk"], measured)
+            for s in inner:
                 s.setdefault("guards", []).append(copy.deepcopy(guard))
                 out.append(s)
+            if not inner:
+                # nothing to guard (zero repetitions inside), but Cirq still evaluates the condition: keep the reference
+                # so that a control on an unmeasured key is seen as such
+                out.append({"t": "N", "guards": [copy.deepcopy(guard)]})
         else:
             raise ValueError(t)
     return out
@@ -313,6 +318,8 @@ def flat_to_ref(flat):
             cond = dict(s["cond"])
             cond["key"] = keystr(s["ckey"])
             steps.append(I.If(P.key_cond_fn(cond), I.U(m.conj().T if s["inner"]["inv"] else m, s["inner"]["w"])))
+        elif s["t"] == "N":
+            continue  # a guarded empty body: no effect on a program whose controls are all bound
         else:
             raise ValueError(s["t"])
         for g in s.get("guards", ()):
